@@ -190,8 +190,11 @@ CraftLog(sc, ep, deps, edeps) ==
      \o [k \in 1..Len(ds) |-> EvLink("link", ds[k][1], ds[k][2], 0)]
 TaskPairs == {p \in CT \X CT : p[1] # p[2]}
 EpicPairs == {p \in CE \X CE : p[1] # p[2]}
+\* CraftMode "legal": only (state, claimant) pairs the claim rule admits - stores ergo
+\* itself could have produced
+LegalStateClaims == {p \in StateClaims : ClaimRuleOK(p[1], p[2])}
 RandomCraft(k) ==     \* (the parameter only defeats TLC's caching of constant definitions)
-  LET sc    == RandomElement([CT -> StateClaims])
+  LET sc    == RandomElement([CT -> IF CraftMode = "legal" THEN LegalStateClaims ELSE StateClaims])
       ep    == RandomElement([CT -> {""} \cup CE])
       d0    == RandomElement(SUBSET TaskPairs)
       deps  == IF Acyclic(d0) THEN d0 ELSE {}
